@@ -28,8 +28,11 @@ let order = function
   | "mirror-rev" -> Dom.rev_order
   | _ -> Dom.rot_order
 
+(* mode `rooted`: the hypothesis of the C15 theorems, decided by
+   Spec.DomFast.rooted_fast_b (proved sound and complete) *)
 let eval mode n es =
   if mode = "spec" then show_spec (DomSpec.run_spec n es)
+  else if mode = "rooted" then (if DomFast.run_rooted n es then "rooted" else "unrooted")
   else show_mirror (DomSpec.run_mirror (order mode) n es)
 
 let parse line =
@@ -66,6 +69,6 @@ let sweep mode n lo hi =
 
 let () =
   match Array.to_list Sys.argv with
-  | [_; mode] when Stdlib.List.mem mode ["mirror"; "mirror-rev"; "mirror-rot"; "spec"] -> each_line (line_mode mode)
+  | [_; mode] when Stdlib.List.mem mode ["mirror"; "mirror-rev"; "mirror-rot"; "spec"; "rooted"] -> each_line (line_mode mode)
   | [_; mode; "sweep"; n; lo; hi] -> sweep mode (int_of_string n) (int_of_string lo) (int_of_string hi)
-  | _ -> prerr_endline "usage: model_dom mirror|mirror-rev|mirror-rot|spec [sweep n lo hi]"; exit 2
+  | _ -> prerr_endline "usage: model_dom mirror|mirror-rev|mirror-rot|spec|rooted [sweep n lo hi]"; exit 2
